@@ -205,10 +205,15 @@ func oneStraddle(r *vkit.Run, s *srv, e *env, reqs []*requester, c *content, idx
 	hookFn.Store(nil)
 	setCompVer(c, kind, vOld)
 	s.set(*c)
+	t1 := time.Now()
 	if err := e.hp[kind].Refresh(ctx); err != nil {
 		r.Inconclusive("straddle: refresh failed: " + err.Error())
 		return false
 	}
+	// patience is how long the refresh may run before the harness concludes
+	// that it waits for the parked reader (an implementation may serialise the
+	// two); it only changes the schedule, never a verdict.
+	patience := max(250*time.Millisecond, 10*time.Since(t1))
 	logf("hash list %s := version %d (host %s listed: %v); Refresh() returned", kind, vOld, host, !added)
 
 	parked, release := make(chan struct{}), make(chan struct{})
@@ -244,21 +249,49 @@ func oneStraddle(r *vkit.Run, s *srv, e *env, reqs []*requester, c *content, idx
 
 	setCompVer(c, kind, vNew)
 	s.set(*c)
-	if err := e.hp[kind].Refresh(ctx); err != nil {
+	refDone := make(chan error, 1)
+	go func() { refDone <- e.hp[kind].Refresh(ctx) }()
+	waited := false
+	var err error
+	select {
+	case err = <-refDone:
+	case <-time.After(patience):
+		// the refresh does not complete while a query is in flight
+		waited = true
+		withMid = false
 		close(release)
+		select {
+		case err = <-refDone:
+		case <-time.After(watchdog):
+			r.Inconclusive("straddle: watchdog: refresh did not return after the parked reader was released")
+			return false
+		}
+	}
+	if err != nil {
+		if !waited {
+			close(release)
+		}
 		<-done
 		r.Inconclusive("straddle: refresh failed: " + err.Error())
 		return false
 	}
-	logf("hash list %s := version %d (host listed: %v); Refresh() RETURNED", kind, vNew, added)
-	r.Bucket("straddle_reader_parked_across_refresh", 1)
+	if waited {
+		logf("hash list %s := version %d: Refresh() did not return while the reader was parked; reader released, then Refresh() RETURNED", kind, vNew)
+		r.Bucket("straddle_refresh_waited_for_parked_reader", 1)
+	} else {
+		logf("hash list %s := version %d (host listed: %v); Refresh() RETURNED", kind, vNew, added)
+		r.Bucket("straddle_reader_parked_across_refresh", 1)
+	}
+	r.Bucket("straddle_interleavings_resolved", 1)
 
 	var oMid obs
 	if withMid {
 		oMid = askH(rC)
 		logf("query by %s started after the refresh returned (reader still parked): %s", rC.Name, short(oMid))
 	}
-	close(release)
+	if !waited {
+		close(release)
+	}
 	select {
 	case <-done:
 	case <-time.After(watchdog):
@@ -360,7 +393,10 @@ func concurrentPhase(r *vkit.Run, s *srv) {
 func oneConcurrent(r *vkit.Run, s *srv, idx int, comp string) (goOn bool) {
 	rng := r.Rand("conc", idx)
 	const nReaders, nWrites = 8, 3
-	perReader := 40
+	// readers run until the refresher is through (count-based hand-shakes
+	// below), at most readerCap queries each
+	readerCap := 600
+	const minBetween = 48 // completed reads before every refresh may download and after the last one
 	c := baseContent()
 	if comp == "rulelist" || comp == "safesearch" {
 		c.Filler = 1500 // makes compiling the new engine take a while
@@ -385,6 +421,14 @@ func oneConcurrent(r *vkit.Run, s *srv, idx int, comp string) (goOn bool) {
 		return false
 	}
 	defer e.close()
+	t1 := time.Now()
+	if err = refreshComp(e, comp); err != nil {
+		r.Inconclusive("concurrent: priming refresh failed: " + err.Error())
+		return false
+	}
+	// patience bounds how long a reader stays parked in the hook if the
+	// refresh does not return meanwhile (schedule only, never a verdict).
+	patience := max(100*time.Millisecond, 10*time.Since(t1))
 	vs := make([]int, nWrites)
 	prev := v0
 	for k := range vs {
@@ -400,32 +444,30 @@ func oneConcurrent(r *vkit.Run, s *srv, idx int, comp string) (goOn bool) {
 	}
 	direct := isHashComp(comp) && rng.IntN(3) == 0
 
-	total := int64(nReaders * perReader)
 	var (
 		mu          sync.Mutex
 		cond        = sync.NewCond(&mu)
 		progress    int64
+		lastWriteAt int64 // progress when the previous refresh returned
 		readersDone bool
-		writeIdx    int
 		reads       []readOp
 		writes      []writeOp
 	)
-	var inCritical atomic.Bool
+	var inCritical, stop atomic.Bool
 	var parkBudget atomic.Int64
 	critDone := make([]chan struct{}, nWrites)
 	for k := range critDone {
 		critDone[k] = make(chan struct{})
 	}
 	var curCrit atomic.Pointer[chan struct{}]
-	var parkedReaders atomic.Int64
+	var parkedReaders, parkTimeouts atomic.Int64
 	path := compPath(comp)
 	s.setGate(func(p string) {
 		if p != path {
 			return
 		}
 		mu.Lock()
-		target := total * int64(writeIdx+1) / int64(nWrites+1)
-		for progress < target && !readersDone {
+		for progress < lastWriteAt+minBetween && !readersDone {
 			cond.Wait()
 		}
 		mu.Unlock()
@@ -443,7 +485,8 @@ func oneConcurrent(r *vkit.Run, s *srv, idx int, comp string) (goOn bool) {
 		parkedReaders.Add(1)
 		select {
 		case <-*ch:
-		case <-time.After(watchdog):
+		case <-time.After(patience):
+			parkTimeouts.Add(1)
 		}
 	}
 	hookFn.Store(&fn)
@@ -457,7 +500,7 @@ func oneConcurrent(r *vkit.Run, s *srv, idx int, comp string) (goOn bool) {
 			defer wg.Done()
 			x := seeds[w]
 			q := readers[w]
-			for i := 0; i < perReader; i++ {
+			for i := 0; i < readerCap && !stop.Load(); i++ {
 				x = x*6364136223846793005 + 1442695040888963407
 				j := 1 + int(x>>33)%(maxV+1)
 				host := compHost(comp, j)
@@ -489,7 +532,6 @@ func oneConcurrent(r *vkit.Run, s *srv, idx int, comp string) (goOn bool) {
 	go func() {
 		for k := 0; k < nWrites; k++ {
 			mu.Lock()
-			writeIdx = k
 			cc := c.clone()
 			mu.Unlock()
 			setCompVer(&cc, comp, vs[k])
@@ -505,13 +547,21 @@ func oneConcurrent(r *vkit.Run, s *srv, idx int, comp string) (goOn bool) {
 				for m := k + 1; m < nWrites; m++ {
 					close(critDone[m])
 				}
+				stop.Store(true)
 				refErr <- err
 				return
 			}
 			mu.Lock()
 			writes = append(writes, writeOp{call, ret, vs[k]})
+			lastWriteAt = progress
 			mu.Unlock()
 		}
+		mu.Lock()
+		for progress < lastWriteAt+minBetween && !readersDone {
+			cond.Wait()
+		}
+		mu.Unlock()
+		stop.Store(true)
 		refErr <- nil
 	}()
 	readersFinished := make(chan struct{})
@@ -552,6 +602,7 @@ func oneConcurrent(r *vkit.Run, s *srv, idx int, comp string) (goOn bool) {
 		reads = append(reads, readOp{nReaders, call, ret + 1, j, f, short(o)})
 	}
 	r.Bucket("conc_readers_parked_in_hook_during_refresh", parkedReaders.Load())
+	r.Bucket("conc_parked_readers_released_by_patience", parkTimeouts.Load())
 
 	// interval rule
 	overlapping, after := 0, 0
